@@ -399,6 +399,9 @@ type CodecIDCase struct {
 	Key      uint8           `json:"key"`
 	SegSize  int             `json:"seg"`
 	Entries  []kit.EntrySpec `json:"e"`
+	// history before the reopen: first index, and what happens after the first batch
+	Start uint64 `json:"start,omitempty"` // 0/1 = 1
+	Then  string `json:"then,omitempty"`  // "", delall (everything removed, then more appends), deltail (suffix removed, then more appends), more (one entry at a time, rotating)
 }
 
 var codecIDs = []uint64{0, 1, 2, 65535, 65536, 65537, 1 << 20, 1 << 32, 1<<63 + 5, ^uint64(0)}
@@ -413,6 +416,8 @@ func genCodecIDCase(t *rapid.T) CodecIDCase {
 	}
 	c.Key = uint8(rapid.IntRange(0, 255).Draw(t, "key"))
 	c.SegSize = rapid.SampledFrom([]int{128, 4096}).Draw(t, "seg")
+	c.Start = rapid.SampledFrom([]uint64{1, 1, 2, 100, 1 << 40}).Draw(t, "start")
+	c.Then = rapid.SampledFrom([]string{"", "", "delall", "deltail", "more"}).Draw(t, "then")
 	n := rapid.IntRange(1, 6).Draw(t, "n")
 	for i := 0; i < n; i++ {
 		c.Entries = append(c.Entries, genEntry(t, 300))
@@ -447,8 +452,12 @@ func runCodecID(c CodecIDCase) (res common.Result) {
 	}
 	m := refmodel.NewLogModel()
 	var logs []*raft.Log
+	start := c.Start
+	if start == 0 {
+		start = 1
+	}
 	for i, e := range c.Entries {
-		logs = append(logs, e.Make(uint64(i+1), 0))
+		logs = append(logs, e.Make(start+uint64(i), 0))
 	}
 	if err := w.StoreLogs(logs); err != nil {
 		w.Close()
@@ -457,6 +466,42 @@ func runCodecID(c CodecIDCase) (res common.Result) {
 	}
 	m.Append(logs)
 	kit.Barrier(w)
+	if c.Then != "" {
+		res.Classes = append(res.Classes, "codec-history:"+c.Then)
+		var derr error
+		switch c.Then {
+		case "delall":
+			derr = w.DeleteRange(m.First, m.Last)
+			m.Delete(m.First, m.Last)
+		case "deltail":
+			if m.Len() > 1 {
+				derr = w.DeleteRange(m.Last, m.Last)
+				m.Delete(m.Last, m.Last)
+			}
+		}
+		if derr != nil {
+			w.Close()
+			res.Fail = common.Failf("delete-err", "DeleteRange = %v", derr)
+			return
+		}
+		next := m.Last + 1
+		if m.Empty() {
+			next = start + 50
+		}
+		for i, e := range c.Entries {
+			l := e.Make(next+uint64(i), 1)
+			if err := w.StoreLogs([]*raft.Log{l}); err != nil {
+				w.Close()
+				res.Fail = common.Failf("append-err", "StoreLogs(%d) after %s = %v", l.Index, c.Then, err)
+				return
+			}
+			m.Append([]*raft.Log{l})
+			kit.Barrier(w)
+		}
+	}
+	if start != 1 {
+		res.Classes = append(res.Classes, "codec-history:first-index-not-1")
+	}
 	if sig, msg := kit.CheckAgainst(w, m, nil); sig != "" {
 		w.Close()
 		res.Fail = common.Failf(sig, "before reopen (codec %d): %s", c.WriteID, msg)
